@@ -423,8 +423,16 @@ func deepEq(a, b reflect.Value, d int) bool {
 		}
 		it := a.MapRange()
 		for it.Next() {
-			bv := b.MapIndex(it.Key())
-			if !bv.IsValid() || !deepEq(it.Value(), bv, d+1) {
+			// keys are matched structurally (a cloned pointer key is a different pointer)
+			found := false
+			jt := b.MapRange()
+			for jt.Next() {
+				if deepEq(it.Key(), jt.Key(), d+1) {
+					found = deepEq(it.Value(), jt.Value(), d+1)
+					break
+				}
+			}
+			if !found {
 				return false
 			}
 		}
